@@ -168,12 +168,13 @@ class Client(object):
         :returns: |Reply| object populated with the response.
 
         """
+        # Encoded first: if that fails nothing was sent and no reply is owed.
+        if not isinstance(ehlo_as, bytes):
+            ehlo_as = ehlo_as.encode('ascii')
         ehlo = Reply(command=b'EHLO')
         ehlo.enhanced_status_code = False
         self.reply_queue.append(ehlo)
 
-        if not isinstance(ehlo_as, bytes):
-            ehlo_as = ehlo_as.encode('ascii')
         command = b'EHLO '+ehlo_as
         self.io.send_command(command)
 
@@ -192,12 +193,13 @@ class Client(object):
         :returns: |Reply| object populated with the response.
 
         """
+        # Encoded first: if that fails nothing was sent and no reply is owed.
+        if not isinstance(helo_as, bytes):
+            helo_as = helo_as.encode('ascii')
         helo = Reply(command=b'HELO')
         helo.enhanced_status_code = False
         self.reply_queue.append(helo)
 
-        if not isinstance(helo_as, bytes):
-            helo_as = helo_as.encode('ascii')
         command = b'HELO '+helo_as
         self.io.send_command(command)
 
@@ -440,12 +442,13 @@ class LmtpClient(Client):
         raise NotImplementedError()
 
     def lhlo(self, lhlo_as):
+        # Encoded first: if that fails nothing was sent and no reply is owed.
+        if not isinstance(lhlo_as, bytes):
+            lhlo_as = lhlo_as.encode('ascii')
         lhlo = Reply(command=b'LHLO')
         lhlo.enhanced_status_code = False
         self.reply_queue.append(lhlo)
 
-        if not isinstance(lhlo_as, bytes):
-            lhlo_as = lhlo_as.encode('ascii')
         command = b'LHLO '+lhlo_as
         self.io.send_command(command)
 
